@@ -13,7 +13,12 @@ SPEC = dict(
           "q2*v (equal and opposite), side-chain rules and their bound, COO-COO factor <= 2; the same three Coulomb rules hold in "
           "every iteration of the iterative scheme (proved on the solver model over Q). Float instances of every kernel, of both pair "
           "rules and of the whole iterative solver are compared bit-for-bit with the real functions; all inequalities are evaluated "
-          "on every group of real runs.",
+          "on every group of real runs. The angle factor of angular-dependent hydrogen bonds (angle_distance_factors) is modelled: it is the "
+          "cosine between two unit vectors, |f| <= 1 for distinct atoms (Cauchy-Schwarz, f_angle_range), so such an energy never exceeds "
+          "|dpka_max| (hbond_geometric_bound); Float model = real function bit-for-bit on stub atoms. Reported averages: a quantity lying "
+          "in [a, b] in every conformation that contains the group (buried fraction in [0, 1], a desolvation term of fixed sign) lies in "
+          "[a, b] in the average (average_in_range over the scalar-average model, which C08 ties to the real AVR records); the AVR records "
+          "of multi-conformation runs, protein-sized ones included, are evaluated too.",
     note="Kernels that are inlined in radial_volume_desolvation / backbone_reorganization are tied through stub conformations (the "
          "harness composes the kernel results in the code's order). |f_angle| <= 1 (Cauchy-Schwarz on unit vectors) is used, not proved.",
     technique="Lean 4/Mathlib proof (ordered-field reasoning over R and Q, case analysis of the pair rules) + generated-constant obligations + bitwise Float correspondence",
@@ -42,6 +47,47 @@ class StubConf:
 
     def get_non_hydrogen_atoms(self):
         return self.atoms
+
+
+def angle_family(ctx):
+    """angle_distance_factors on stub atoms against the Lean model (bit patterns) and the Cauchy-Schwarz bound itself"""
+    import propka.energy as E
+    from propka.atom import Atom
+    rnd = ctx.rng
+    reqs, reals, bad = [], [], []
+
+    def atom(x, y, z):
+        a = Atom()
+        a.x, a.y, a.z = x, y, z
+        return a
+    for _ in range(300 if ctx.quick() else 6000):
+        base = [round(rnd.uniform(-50, 50), 3) for _ in range(3)]
+        pts = []
+        for k in range(3):
+            kind = rnd.randrange(4)
+            if kind == 0:
+                pts.append([round(b + rnd.uniform(-3, 3), 3) for b in base])
+            elif kind == 1:   # on a coordinate axis through the base point
+                p = list(base); p[rnd.randrange(3)] += rnd.choice([1.0, -1.0, 0.96, 2.9]); pts.append(p)
+            elif kind == 2:   # very close
+                pts.append([b + rnd.choice([0.001, -0.001, 0.0]) for b in base])
+            else:
+                pts.append([round(rnd.uniform(-999, 9999), 3) for _ in range(3)])
+        p1, p2, p3 = pts
+        if p1 == p2 or p2 == p3:
+            continue          # the code divides by both distances (ZeroDivisionError): excluded by the theorem's hypotheses too
+        d12, f, d23 = E.angle_distance_factors(atom(*p1), atom(*p2), atom(*p3))
+        ctx.case(key=("angle", tuple(p1), tuple(p2), tuple(p3)), nontrivial=abs(f) > 1e-6)
+        if not (abs(f) <= 1.0 + 1e-12):
+            bad.append((p1, p2, p3, f))
+        reqs.append("angle f " + ",".join(str(common.bits(float(c))) for c in p1 + p2 + p3))
+        reals.append("%d %d %d" % (common.bits(d12), common.bits(f), common.bits(d23)))
+    for b in bad[:2]:
+        ctx.violate("angle-factor-out-of-range", "angle_distance_factors%r = %r" % (b[:3], b[3]), dict(call="propka.energy.angle_distance_factors", points=b[:3]))
+    ctx.oblige("spec: the angle factor of three distinct atoms lies in [-1, 1] (%d triples)" % len(reqs), not bad, str(bad[:1]))
+    outs = common.driver_batch(reqs)
+    dis = [(q[:80], r, m) for q, r, m in zip(reqs, reals, outs) if r != m]
+    ctx.oblige("correspondence: Float angle-factor model = energy.angle_distance_factors (bit patterns; %d triples)" % len(reqs), not dis, str(dis[:1]))
 
 
 def kernels(ctx, P):
@@ -325,6 +371,7 @@ def run(ctx):
                not bad, str([(b[0], b[1][:1]) for b in bad[:2]]))
     if ctx.driver_ok:
         kernels(ctx, P)
+        angle_family(ctx)
         pair_rules(ctx, P)
         solver(ctx, P)
     else:
